@@ -195,10 +195,12 @@ fn make_case(kind: Kind, op: &str, form: usize, a: (&str, Option<String>, Input)
     };
     let name = format!("{} {} {op} {} [{}]", if kind == Kind::Int { "int" } else { "float" }, a.0, b.0, FORMS[form]);
     let (body, inputs) = match form {
-        0 => (format!("{emit}({} {op} {})", a.1.clone()?, b.1.clone()?), vec![]),
-        1 => (format!("let a = {next}\n{emit}(a {op} {})", b.1.clone()?), vec![a.2.clone()]),
-        2 => (format!("let b = {next}\n{emit}({} {op} b)", a.1.clone()?), vec![b.2.clone()]),
-        3 => (format!("let a = {next}\nlet b = {next}\n{emit}(a {op} b)"), vec![a.2.clone(), b.2.clone()]),
+        // the result is observed three ways: as a call argument, stored by `let`, and stored by assignment
+        // (the peephole that fuses an operation with a following store is a separate code path)
+        0 => (three_ways(emit, &format!("{} {op} {}", a.1.clone()?, b.1.clone()?), ""), vec![]),
+        1 => (three_ways(emit, &format!("a {op} {}", b.1.clone()?), &format!("let a = {next}\n")), vec![a.2.clone()]),
+        2 => (three_ways(emit, &format!("{} {op} b", a.1.clone()?), &format!("let b = {next}\n")), vec![b.2.clone()]),
+        3 => (three_ways(emit, &format!("a {op} b"), &format!("let a = {next}\nlet b = {next}\n")), vec![a.2.clone(), b.2.clone()]),
         4 => (format!("var a = {next}\nlet b = {next}\na {op}= b\n{emit}(a)"), vec![a.2.clone(), b.2.clone()]),
         _ => (format!("var a = {next}\na {op}= {}\n{emit}(a)", b.1.clone()?), vec![a.2.clone()]),
     };
@@ -207,9 +209,32 @@ fn make_case(kind: Kind, op: &str, form: usize, a: (&str, Option<String>, Input)
     Some(c)
 }
 
+fn three_ways(emit: &str, e: &str, pre: &str) -> String {
+    format!("{pre}{emit}({e})\nlet r = {e}\n{emit}(r)\nvar s = {e}\ns = {e}\n{emit}(s)")
+}
+
 /// observation of a grid case reduced to value / error kind
 fn grid_sig(r: &Res) -> String {
     match r {
+        Res::Ran(Seen { emits, out: _, end }) => {
+            // the three observations of one case (argument / let / assignment) must agree
+            let mut emits = emits.clone();
+            if emits.len() == 3 {
+                if emits[0] == emits[1] && emits[1] == emits[2] {
+                    emits.truncate(1);
+                } else {
+                    return format!("UNEXPECTED the result differs between call argument, let and assignment: {emits:?}");
+                }
+            }
+            grid_sig1(end, &emits)
+        }
+        other => format!("UNEXPECTED {}", res_text(other)),
+    }
+}
+
+fn grid_sig1(end: &End, emits: &[Emit]) -> String {
+    let r = Res::Ran(Seen { emits: emits.to_vec(), out: String::new(), end: end.clone() });
+    match &r {
         Res::Ran(Seen { emits, out: _, end }) => match (end, emits.as_slice()) {
             (End::Done, [Emit::Int(v)]) => format!("int {v}"),
             (End::Done, [Emit::Bool(v)]) => format!("bool {v}"),
